@@ -1,7 +1,10 @@
 """C09  Structural updates change the hierarchy exactly as specified and nothing else."""
+import copy
+
 from hypothesis import strategies as st
 
-from vv import struct
+from vv import kit, struct
+from vv.util import deq
 from vv.core import Result, exc_violation, innermost_is_harness
 
 ID = 'C09'
@@ -20,7 +23,10 @@ RULE = ('Model-based stateful generation: a composite strategy threads a '
         'collections and one nested collection. After every batch: '
         'values(engine.state.get_value()) == model, process/step names per '
         'compartment == model, Store identity of every untouched (and moved) '
-        'node preserved. Non-trivial = >=3 ops of >=2 kinds, or a combined '
+        'node preserved. One case in six instead drives a collection whose '
+        'children are plain variables (\'*\': {_default: d}) with _add of any '
+        'state (0, 0.0, False, \'\', [] included), _delete, set updates, '
+        're-used keys and adding an existing key. Non-trivial = >=3 ops of >=2 kinds, or a combined '
         'batch, or a nested target; distinct = spec hash.')
 ASSUMPTIONS = [
     'keys are globally fresh, so no operation targets a key another operation '
@@ -31,15 +37,183 @@ ASSUMPTIONS = [
 ]
 
 
+LEAF_VALUES = [0, 0.0, False, '', [], 5, 7, 'a', [1], True, -2]
+LEAF_DEFAULTS = [5, True, 'd', [7], 1.5, 0]
+
+
+@st.composite
+def leaf_histories(draw, tier):
+    """A collection whose children are plain variables ('*': {'_default': d}):
+    _add with any state (falsy ones included), _delete, set updates."""
+    keys = ['k%d' % i for i in range(8)]
+    value = st.sampled_from(LEAF_VALUES)
+    init = {k: draw(value) for k in draw(st.lists(
+        st.sampled_from(keys[:4]), max_size=3, unique=True))}
+    live = set(init)
+    fresh = [k for k in keys if k not in live]
+    ticks = []
+    reject = False
+    for _ in range(draw(st.integers(1, 4 if tier == 'quick' else 8))):
+        batch, touched, freed = [], set(), []
+        for _ in range(draw(st.integers(1, 3))):
+            kinds = []
+            if fresh:
+                kinds += ['add', 'add']
+            cand = sorted(live - touched)
+            if cand:
+                kinds += ['delete', 'set']
+            if not kinds:
+                break
+            kind = draw(st.sampled_from(kinds))
+            if kind == 'add':
+                k = fresh.pop(0)
+                batch.append({'op': 'add', 'key': k, 'state': draw(value)})
+                live.add(k)
+            else:
+                k = draw(st.sampled_from(cand))
+                if kind == 'delete':
+                    batch.append({'op': 'delete', 'key': k})
+                    live.discard(k)
+                    freed.append(k)         # the key may come back later
+                else:
+                    batch.append({'op': 'set', 'key': k, 'value': draw(value)})
+            touched.add(k)
+        fresh.extend(freed)
+        ticks.append(batch)
+    if live and draw(st.integers(0, 5)) == 0:
+        reject = True
+        ticks.append([{'op': 'add_existing',
+                       'key': draw(st.sampled_from(sorted(live))),
+                       'state': draw(value)}])
+    return {'kind': 'leaves', 'default': draw(st.sampled_from(LEAF_DEFAULTS)),
+            'init': init, 'ticks': ticks, 'expect_reject': reject,
+            'op_is_step': draw(st.integers(0, 3)) == 0}
+
+
+@st.composite
+def strategy_(draw, tier):
+    if draw(st.integers(0, 5)) == 0:
+        return draw(leaf_histories(tier))
+    return draw(struct.histories(viewers=False, residents=True, inc_ok=False,
+                                 max_ticks=6 if tier == 'quick' else 12,
+                                 reject_ok=True, tuple_delete=True,
+                                 none_ok=True))
+
+
 def strategy(tier):
-    return struct.histories(viewers=False, residents=True, inc_ok=False,
-                            max_ticks=6 if tier == 'quick' else 12,
-                            reject_ok=True, tuple_delete=True, none_ok=True)
+    return strategy_(tier)
+
+
+def leaf_update(batch):
+    upd = {}
+    for op in batch:
+        if op['op'] in ('add', 'add_existing'):
+            upd.setdefault('_add', []).append(
+                {'key': op['key'], 'state': copy.deepcopy(op['state'])})
+        elif op['op'] == 'delete':
+            upd.setdefault('_delete', []).append(op['key'])
+        else:
+            upd[op['key']] = copy.deepcopy(op['value'])
+    return {'pool': upd}
+
+
+def run_leaves(spec, res):
+    from vivarium.core.engine import Engine
+    res.label('leaf_collection')
+    ctx = kit.Context()
+    try:
+        script = [leaf_update(b) for b in spec['ticks']]
+        schema = {'pool': {'*': {'_default': copy.deepcopy(spec['default']),
+                                 '_updater': 'set', '_emit': True}},
+                  'other': {'keep': {'_default': 3, '_emit': True}}}
+        params = {'name': 'OP', 'run_id': ctx.run_id, 'schema': schema,
+                  'time_step': 1.0}
+        kwargs = dict(topology={'OP': {'pool': ('pool',),
+                                       'other': ('other',)}},
+                      initial_state={'pool': copy.deepcopy(spec['init']),
+                                     'other': {'keep': 3}},
+                      display_info=False, emitter=kit.emitter_config(ctx))
+        if spec['op_is_step']:
+            res.label('op_is_step')
+            # the construction phase is the step's first call
+            kwargs.update(
+                steps={'OP': kit.WireStep(dict(params, script=[{}] + script))},
+                flow={'OP': []},
+                processes={'TK': kit.TickProcess({
+                    'name': 'TK', 'run_id': ctx.run_id, 'time_step': 1.0})})
+            kwargs['topology']['TK'] = {'clock': ('clock',)}
+        else:
+            kwargs.update(processes={'OP': kit.WireProcess(
+                dict(params, script=script))})
+        engine = Engine(**kwargs)
+        ctx.engine = engine
+        model = copy.deepcopy(spec['init'])
+
+        def pool():
+            return kit.plain_state(engine.state.get_value()).get('pool', {})
+        if deq(pool(), model):
+            res.fail('initial', 'pool after construction %r, initial state %r'
+                     % (pool(), model))
+            return
+        falsy = 0
+        for n, batch in enumerate(spec['ticks']):
+            node = engine.state.inner['pool']
+            before = {k: id(v) for k, v in node.inner.items()}
+            ctx.keep.extend(node.inner.values())
+            if any(op['op'] == 'add_existing' for op in batch):
+                try:
+                    engine.update(1)
+                except Exception:
+                    res.label('add_existing.rejected')
+                    res.nontrivial = True
+                    return
+                res.fail('add_existing.accepted', 'adding the existing key %r '
+                         'to a collection of variables was not rejected'
+                         % batch[0]['key'], 'store.py:add')
+                return
+            engine.update(1)
+            touched = set()
+            for op in batch:
+                touched.add(op['key'])
+                if op['op'] == 'add':
+                    model[op['key']] = copy.deepcopy(op['state'])
+                    if not op['state'] and op['state'] != spec['default']:
+                        falsy += 1
+                elif op['op'] == 'set':
+                    model[op['key']] = copy.deepcopy(op['value'])
+                else:
+                    model.pop(op['key'], None)
+            d = deq(pool(), model)
+            if d:
+                res.fail('hierarchy', 'after batch %d %r (default %r): %s\n  '
+                         'pool %r\n  expected %r' % (n, batch, spec['default'],
+                                                     d, pool(), model),
+                         'store.py:apply_update')
+                return
+            after = engine.state.inner['pool'].inner
+            for k, i in before.items():
+                if k not in touched and k in after and id(after[k]) != i:
+                    res.fail('identity', 'after batch %d %r the untouched '
+                             'variable %r was rebuilt' % (n, batch, k))
+                    return
+            whole = kit.plain_state(engine.state.get_value())
+            if whole.get('other') != {'keep': 3}:
+                res.fail('hierarchy', 'after batch %d the bystander store '
+                         'holds %r' % (n, whole.get('other')))
+                return
+        if falsy:
+            res.label('leaf.add_falsy_state')
+        res.nontrivial = falsy > 0 or sum(len(b) for b in spec['ticks']) >= 3
+    finally:
+        ctx.close()
 
 
 def run_case(spec):
     res = Result()
     try:
+        if spec.get('kind') == 'leaves':
+            run_leaves(spec, res)
+            return res
         struct.run_model(spec, res)
     except Exception as e:
         if innermost_is_harness(e):
@@ -50,6 +224,8 @@ def run_case(spec):
 
 def sig_tuple_delete(spec, v, res):
     """F09a: the tuple-path form of _delete deletes nothing."""
+    if spec.get('kind') == 'leaves':
+        return False
     if v.kind not in ('hierarchy', 'residents', 'identity'):
         return False
     return any(op['op'] == 'delete' and op.get('form') in ('tuple', 'deep')
